@@ -1,6 +1,7 @@
 import CoapVerif.Model.Exchange
 /- Line-protocol driver for C07: replays a schedule of harness/exchange.c through the model. -/
 -- DRIVER-OPS: xchg => Coap.Driver.Exchange.step
+-- DRIVER-OPS: xchg2 => Coap.Driver.Exchange.step2
 namespace Coap.Driver.Exchange
 open Coap.Exch
 
@@ -30,14 +31,22 @@ def parsePers (s : String) : Option (Pers × Bool) :=
   let (base, dd) := if s.length == 3 && s.endsWith "+" then ((s.take 2).toString, true) else (s, false)
   let p : Option Pers :=
     if base == "pb" then some .pb else if base == "ac" then some .ac else if base == "at" then some .tr
-    else if base == "dc" then some .dc else if base == "dn" then some .dn else none
+    else if base == "dc" then some .dc else if base == "dn" then some .dn else if base == "da" then some .da else none
   p.map (fun p => (p, dd))
 
+/-- `<C|N><method 1..4>` (token = c0+i, 07) or `<C|N><method>/<token>` (hex, at most 8 bytes, `-` = zero-length token) -/
 def parseReq (i : Nat) (s : String) : Option Req :=
   match s.toList with
   | [k, m] =>
     if (k == 'C' || k == 'N') && '1' ≤ m && m ≤ '4' then
       some { con := k == 'C', method := m.toNat - 48, token := [UInt8.ofNat (0xc0 + i), 7] }
+    else none
+  | k :: m :: '/' :: t =>
+    if (k == 'C' || k == 'N') && '1' ≤ m && m ≤ '4' && !t.isEmpty then
+      match bytesOfHex (String.ofList t) with
+      | some tok => if tok.length ≤ 8 && (t == ['-'] || !tok.isEmpty) && t.all (fun c => c == '-' || c.isDigit || ('a' ≤ c && c ≤ 'f'))
+                    then some { con := k == 'C', method := m.toNat - 48, token := tok } else none
+      | none => none
     else none
   | _ => none
 
@@ -79,7 +88,7 @@ def parseFates (s : String) : Option (List Fate) :=
 def showSum (rs : List Req) : List String :=
   rs.mapIdx (fun i r => "sum:" ++ toString i ++ "=" ++ toString r.nrsp ++ "/" ++ toString r.nnack)
 
-/-- `xchg <pers> <D> <cmid0> <smid0> <rc> <rs> <mode> <reqs> <verdicts> <fates>` -/
+/-- `xchg <pers> <D> <cmid0> <smid0> <rc> <rs> <mode> <reqs> <verdicts> <fates>`; pers = pb|ac|at|dc|dn|da [+] -/
 def step (args : List String) : String :=
   match args with
   | [p, d, cm, sm, rc, rs, mode, reqs, verd, fates] =>
@@ -95,6 +104,18 @@ def step (args : List String) : String :=
         ["st:ca=" ++ toString fin.c.L.conActive ++ ",sq=" ++ toString fin.c.L.sendq.length ++ ",dq=" ++
          toString fin.c.L.delayq.length ++ ",q=" ++ (if fin.quiescent then "1" else "0")]
       "M " ++ String.intercalate " " (tr ++ tail)
+    | _, _, _, _, _, _, _, _, _ => "bad-op"
+  | _ => "bad-op"
+
+/-- `xchg2 …`: two client sessions with equal message ids in one context (harness/exchange.c).  The context-wide send
+    queue shared by several sessions is not part of M (`Layer` is one session's view; the queue itself is C06's model):
+    the line is checked for well-formedness only and the implementation's trace is judged by the oracle alone. -/
+def step2 (args : List String) : String :=
+  match args with
+  | [p, d, cm, sm, rc, rs, mode, reqs, verd, fates] =>
+    match parsePers p, d.toNat?, cm.toNat?, sm.toNat?, rc.toNat?, rs.toNat?, parseReqs reqs, parseVerdicts verd, parseFates fates with
+    | some _, some D, some _, some _, some _, some _, some rq, some _, some _ =>
+      if D < 1 || mode != "q" || rq.isEmpty || (reqs.toList.any (· == '/')) then "bad-op" else "M -"
     | _, _, _, _, _, _, _, _, _ => "bad-op"
   | _ => "bad-op"
 
